@@ -647,6 +647,12 @@ def run_property(pid, tier, seed):
                 known_counts[k] = known_counts.get(k, 0) + 1
             else:
                 unknown.append((c, r, fl))
+    if pid == 'C08':
+        import extra
+        unknown += [(c, {'out': None}, fl) for c, fl in extra.cli_anchor_probe(res, seed)]
+    if pid == 'C13':
+        import extra
+        unknown += [(c, {'out': None}, fl) for c, fl in extra.python_threshold_probe(res, seed)]
     res['stats'].update({'undecided_lang': undecided, 'engine_inconsistencies': incons, 'known_class_failures': known_counts})
     # distribution
     keys = set(); nontriv = set(); flagc = {}; alph = {}
@@ -676,6 +682,10 @@ def run_property(pid, tier, seed):
         kind = fl['kind']
         def same_kind(cc, rr, kind=kind):
             return [x for x in fails_of(cc, rr) if x['kind'] == kind and not known_for(pid, cc, rr, x, st)]
+        if kind in ('cli-anchor', 'py-threshold'):
+            res['violations'].append({'case': {k: v for k, v in c.items() if k in ('tcs', 'f', 'mr', 'ms', 'args')}, 'original_case': {k: v for k, v in c.items() if k in ('tcs', 'f', 'mr', 'ms')},
+                                      'failure': fl, 'output': None})
+            continue
         small = shrink(pid, c, spec, same_kind)
         small = {k: v for k, v in small.items() if k in ('tcs', 'f', 'mr', 'ms')}
         sc_ = dict(small); sc_['id'] = 0; sc_['lang'] = bool(spec.get('lang'))
